@@ -59,6 +59,14 @@ def source(case):
         return design.build_netlist(design.materialize((d[0], tuple(d[1]), d[2]))), "api:hier"
     if kind == "edif-text":
         return c05.parse_text(edif_writer.render(fdesigns.BASES[case[2]]())), "edif-reader:" + case[2]
+    if kind == "api-foreign-cell":
+        # a design that instances a cell living in a library of ANOTHER netlist: not writable as EDIF
+        n = design.build_netlist(c03.to_api(fdesigns.BASES[case[2]]()))
+        other = s.Netlist(name="elsewhere")
+        cell = other.create_library(name="their_lib").create_definition(name="their_cell")
+        cell.create_port(name="p", pins=1)
+        n.top_instance.reference.create_child(name="borrowed", reference=cell)
+        return n, "api-foreign-cell:" + case[2]
     if kind == "edif-text-ids":
         # identifiers that are not derived from the names, the same one in every scope of its kind
         ad = fdesigns.BASES[case[2]]()
@@ -136,7 +144,19 @@ def _worker(case):
         with core.quiet():
             do_compose(path)
     except Exception as ex:
-        return {"key": key, "nontrivial": False, "outcome": "not-composable:" + type(ex).__name__, "problems": [], "transitions": 1}
+        # a refused write leaves the netlist as it was, and asking again gives the same refusal
+        after = masked(snapshot(w, hidden=False), edif, before_raw)
+        if after != before:
+            msg = next(("%s -> %s" % (a, b) for a, b in zip(before, after) if a != b), "object count %d -> %d" % (len(before), len(after)))
+            probs.append(("refused-compose-changed-netlist:%s:%s" % (type(ex).__name__, tag), msg[:400]))
+        try:
+            with core.quiet():
+                do_compose(path)
+            probs.append(("refused-compose-accepted-when-repeated:%s:%s" % (type(ex).__name__, tag), "the same call, refused a moment ago, now writes a file"))
+        except Exception as ex2:
+            if type(ex2) is not type(ex):
+                probs.append(("refused-compose-refused-differently:%s:%s" % (type(ex).__name__, tag), "then %s" % type(ex2).__name__))
+        return {"key": key, "nontrivial": True, "outcome": "not-composable:" + type(ex).__name__, "problems": probs, "transitions": 2}
     first = open(path, "rb").read()
     after = masked(snapshot(w, hidden=False), edif, before_raw)
     if after != before:
@@ -206,6 +226,8 @@ def cases(tier):
         srcs.append(("edif-text", b))
         if b in ("E4", "E9") or tier == "thorough":
             srcs.append(("edif-text-ids", b))
+        if b in ("E1", "E4") or tier == "thorough":
+            srcs.append(("api-foreign-cell", b))
     for desc in design.family_hier(tier, variants=("plain", "two-libraries")):
         if desc[0] in ("K8-bus",) or (desc[0] in ("K1-chain2", "K2-shared") and (tier == "thorough" or sum(desc[1]) % 5 == 0)):
             srcs.append(("api-hier", desc))
